@@ -118,7 +118,7 @@ func (e *Exec) heapTerm(st *State, name string) string {
 	if _, ok := e.ctx.declared[t]; !ok {
 		e.ctx.declare(t, hi.sort)
 		if st.epoch == 0 {
-			e.heapFacts(name, t, hi, e.nextRef0, "true")
+			e.heapFacts(st, name, t, hi, e.nextRef0, "true")
 		}
 	}
 	return t
@@ -126,7 +126,17 @@ func (e *Exec) heapTerm(st *State, name string) string {
 
 // entryHeapFacts: at function entry every reference stored in memory refers
 // to an object allocated before entry; every slice header is well formed.
-func (e *Exec) heapFacts(name, t string, hi *heapInfo, nextRef, pc string) {
+func (e *Exec) heapFacts(st *State, name, t string, hi *heapInfo, nextRef, pc string) {
+	switch hi.kind {
+	case 'D':
+		// the nil map has no keys
+		e.ctx.assume(imp(pc, fmt.Sprintf("(forall ((k %s)) (! (not (select (select %s 0) k)) :pattern ((select (select %s 0) k))))", hi.keySort, t, t)))
+	case 'V':
+		// normal form: keys outside the domain map to the zero value
+		md := e.heapTerm(st, "MD$"+strings.TrimPrefix(name, "MV$"))
+		z := e.ctx.zero(hi.valType)
+		e.ctx.assume(imp(pc, fmt.Sprintf("(forall ((r Int) (k %s)) (! (=> (not (select (select %s r) k)) (= (select (select %s r) k) %s)) :pattern ((select (select %s r) k))))", hi.keySort, md, t, z, t)))
+	}
 	if hi.valType == nil {
 		if hi.kind == 'G' {
 			if nextRef == e.nextRef0 {
@@ -161,8 +171,14 @@ func (e *Exec) valueFacts(v string, t types.Type, nextRef string) string {
 		}
 		return "true"
 	case *types.Pointer, *types.Map, *types.Chan:
+		if e.ctx.bv {
+			return "true"
+		}
 		return lt(app("root", v), nextRef)
 	case *types.Slice:
+		if e.ctx.bv {
+			return "true"
+		}
 		return and(le("0", slOff(v)), le("0", slLen(v)), le(slLen(v), slCap(v)), lt(slCap(v), "281474976710656"),
 			le("0", slRef(v)), lt(slRef(v), nextRef), imp(eq(slRef(v), "0"), eq(slCap(v), "0")))
 	case *types.Struct:
@@ -259,6 +275,71 @@ func (e *Exec) setHeap(st *State, name, term string) {
 	c := e.ctx.fresh(name, hi.sort)
 	e.ctx.assume(eq(c, term))
 	st.heaps[name] = c
+	if hi.kind == 'E' {
+		e.elemStoreFrame(c, term, hi)
+	}
+}
+
+// splitSexp splits the top-level arguments of an application "(f a b c)".
+func splitSexp(t string) []string {
+	if len(t) < 2 || t[0] != '(' || t[len(t)-1] != ')' {
+		return nil
+	}
+	t = t[1 : len(t)-1]
+	var out []string
+	d, start := 0, 0
+	for i := 0; i <= len(t); i++ {
+		if i == len(t) || (t[i] == ' ' && d == 0) {
+			if i > start {
+				out = append(out, t[start:i])
+			}
+			start = i + 1
+			continue
+		}
+		switch t[i] {
+		case '(':
+			d++
+		case ')':
+			d--
+		}
+	}
+	return out
+}
+
+// elemStoreFrame: when an element heap version is `store old r X`, state at
+// the level of the el$ function which slice elements are unchanged, so that
+// quantified facts about slices survive updates of other slices.
+func (e *Exec) elemStoreFrame(nw, term string, hi *heapInfo) {
+	a := splitSexp(term)
+	if len(a) != 4 || a[0] != "store" {
+		return
+	}
+	old, r, x := a[1], a[2], a[3]
+	newEl := e.elemAt(nw, hi.valType, "s", "i")
+	oldEl := e.elemAt(old, hi.valType, "s", "i")
+	b := splitSexp(x)
+	if len(b) == 4 && b[0] == "store" && b[1] == sel(old, r) {
+		abs, v := b[2], b[3]
+		hit := and(eq(slRef("s"), r), eq(add(slOff("s"), "i"), abs))
+		e.ctx.assume(fmt.Sprintf("(forall ((s Slice) (i Int)) (! (= %s (ite %s %s %s)) :pattern (%s)))", newEl, hit, v, oldEl, newEl))
+		return
+	}
+	e.ctx.assume(fmt.Sprintf("(forall ((s Slice) (i Int)) (! (=> (not (= (sl_ref s) %s)) (= %s %s)) :pattern (%s)))", r, newEl, oldEl, newEl))
+}
+
+// frameAssume: heap version nw agrees with old on every object satisfying
+// keep(r); for element heaps the same is stated for the el$ function.
+func (e *Exec) frameAssume(pc, name, nw, old string, keep func(r string) string) {
+	hi := e.heapInfos[name]
+	if hi.kind == 'g' || hi.kind == 'G' {
+		return
+	}
+	e.ctx.assume(imp(pc, fmt.Sprintf("(forall ((r Int)) (! (=> %s (= (select %s r) (select %s r))) :pattern ((select %s r))))", keep("r"), nw, old, nw)))
+	if hi.kind == 'E' {
+		newEl := e.elemAt(nw, hi.valType, "s", "i")
+		oldEl := e.elemAt(old, hi.valType, "s", "i")
+		e.ctx.assume(imp(pc, fmt.Sprintf("(forall ((s Slice) (i Int)) (! (=> %s (= %s %s)) :pattern (%s)))", keep("(sl_ref s)"), newEl, oldEl, newEl)))
+	}
 }
 
 // havocHeap replaces a heap by an unconstrained fresh version and returns
@@ -275,7 +356,7 @@ func (e *Exec) havocHeap(st *State, name string) (string, string) {
 // any heap (stored references are allocated, slice headers well formed).
 func (e *Exec) havocHeapTyped(st *State, name, nextRefAfter string) (string, string) {
 	old, nw := e.havocHeap(st, name)
-	e.heapFacts(name, nw, e.heapInfos[name], nextRefAfter, st.pc)
+	e.heapFacts(st, name, nw, e.heapInfos[name], nextRefAfter, st.pc)
 	return old, nw
 }
 
